@@ -161,7 +161,9 @@ class AccfgGen:
                 self.count += 2
                 head = [self.if_node(inner, depth + 1, True), self.stmt_sl(inner)]
             node["body"] = head + self.stmts(r.randint(1, 3), inner, depth + 1, True)
-            if p.get("while_loops") and not node["carry"] and r.random() < p["while_loops"]:
+            if p.get("state_loops") and not node["carry"] and r.random() < p["state_loops"]:
+                node["carry_state"] = r.randrange(p["n_acc"])  # emitted as a loop that already carries that accelerator's state, if its body is simple enough
+            elif p.get("while_loops") and not node["carry"] and r.random() < p["while_loops"]:
                 node["as_while"] = True  # the same counted loop written as scf.while (a region op state tracing does not know)
             for c in node["carry"]:
                 # yield something computed in the body (or the argument itself / an outer value)
@@ -274,6 +276,16 @@ def emit(ast, acc_names=None, vty="i32", decls=()) -> str:
 
         for s in body:
             k = s["k"]
+            if k == "for" and s.get("carry_state") is not None and not s["carry"] and not s.get("as_while"):
+                # a loop that already carries the state of one accelerator (hand-threaded / traced before), truthfully: the
+                # body is a plain sequence of setups of that accelerator (no calls, no nesting), every setup continues the
+                # previous one, the last one is yielded
+                a = s["carry_state"]
+                sls = [x for x in s["body"] if x["k"] == "sl"]
+                simple = all(x["k"] in ("sl", "pure", "opq") and not x.get("gap") and not x.get("after") for x in s["body"])
+                if simple and sls and all(x["acc"] == a for x in sls) and a in last:
+                    emit_state_loop(ind, s, a, last[a], last)
+                    continue
             if k in ("for", "if") or (k == "call" and s["eff"] != "none"):
                 last.clear()
             if k == "sl" and s.get("gap") and any(g["k"] == "call" and g["eff"] != "none" for g in s["gap"]):
@@ -283,6 +295,19 @@ def emit(ast, acc_names=None, vty="i32", decls=()) -> str:
                 continue
             stmt(ind, s, pick(s), last)
             remember(s)
+
+    def emit_state_loop(ind, s, a, init, last):
+        an = names[a]["name"]
+        res, arg = fresh("ls"), fresh("la")
+        e(ind, f'{res} = scf.for {s["iv"]} = {s["lb"]} to {s["ub"]} step {s["step"]} iter_args({arg} = {init}) -> (!accfg.state<"{an}">) {{')
+        e(ind + 1, f'{s["ic"]} = arith.index_cast {s["iv"]} : index to {vty}')
+        inner: dict = {a: arg}
+        for x in s["body"]:
+            stmt(ind + 1, x, inner[a] if x["k"] == "sl" else None, inner)
+        e(ind + 1, f'scf.yield {inner[a]} : !accfg.state<"{an}">')
+        e(ind, "}")
+        last.clear()
+        last[a] = res
 
     def stmt(ind, s, link=None, last=None):
         k = s["k"]
